@@ -304,7 +304,11 @@ func Exec(c *Case) (nontrivial bool, labels []string, fail *vlib.Failure) {
 			calls := h.Dev.Calls()
 			rsp2, err2 := h.SetRequest(txid, reqs2, repReq2, false)
 			if err2 != nil || len(vlib.IntentErrorsOf(rsp2)) > 0 {
-				return nontrivial, keys(lab), vlib.Failf("C03:dry-run-accepted-real-refused", "%s: the dry run succeeded but the identical real request was refused: err=%v intentErrors=%v", where, err2, vlib.IntentErrorsOf(rsp2))
+				sig := "C03:dry-run-accepted-real-refused"
+				if repReq != nil {
+					sig += ":with-replace"
+				}
+				return nontrivial, keys(lab), vlib.Failf(sig, "%s: the dry run succeeded but the identical real request was refused: err=%v intentErrors=%v", where, err2, vlib.IntentErrorsOf(rsp2))
 			}
 			realRsp, _ := vlib.DecodeProtoChange(rsp2.GetUpdate(), rsp2.GetDelete())
 			if d := sameChange(dry, realRsp); d != "" {
